@@ -44,3 +44,14 @@ def lp_fam(nh, tiers):
     _m.P("C05.match_straggler_msg", "h_match_straggler", "rollback point for a straggler: an event boundary; exactly the processed events the straggler precedes are undone", nh, tiers, canaries=2, funcs=["match_straggler_msg"]),
     ]
 HARNESSES = HARNESSES + lp_fam(4, ("quick",)) + lp_fam(5, ("thorough",))
+
+# ---- lp_init places the generator state in rollbackable memory (so that a restore rewinds the random stream)
+_sp14 = _ilu.spec_from_file_location("spec_C14_for_C05", _os.path.join(_os.path.dirname(__file__), "C14.py"))
+_m14 = _ilu.module_from_spec(_sp14); _m14.H = H; _sp14.loader.exec_module(_m14)
+def _lp_init(tier, lps, nodes, threads):
+    hs = _m14.mk(tier, lps, nodes, threads, 1200, which=(1,))
+    for h in hs:
+        h["name"] = h["name"].replace("C14.", "C05.")
+        h["desc"] = "lp_init: the generator context is obtained from rs_malloc (the LP's own rollbackable allocator) after the allocator is initialised, and seeded with the global LP id - so a checkpoint restore rewinds the random stream (with C09: RandomU64 is a function of that state only)"
+    return hs
+HARNESSES = HARNESSES + _lp_init("quick", 8, 3, 3) + _lp_init("thorough", 16, 4, 4)
